@@ -62,6 +62,22 @@ func (mgr *ConnManager) removePendingConn(c net.Conn) {
 	delete(mgr.pending, c)
 }
 
+// registerAcceptedConn moves a pending connection into the registry. A connection which is
+// not pending any more was accepted before a Stop that has run since (Stop closes and forgets
+// the pending connections): it belongs to the stopped server, even if the server has been
+// started again meanwhile, and is closed instead.
+func (mgr *ConnManager) registerAcceptedConn(c *Conn) {
+	mgr.mutex.Lock()
+	defer mgr.mutex.Unlock()
+	_, pending := mgr.pending[c.Conn]
+	delete(mgr.pending, c.Conn)
+	if !pending || mgr.stopped {
+		c.Close()
+		return
+	}
+	mgr.m[c.UUID()] = c
+}
+
 // AddConn adds the specified connection.
 func (mgr *ConnManager) AddConn(c *Conn) {
 	mgr.mutex.Lock()
